@@ -64,7 +64,7 @@ def get_z2_taper_function(unitary, kernel, q_indices, n_qubits, n_symmetries, ei
 
         # Remove non-commuting terms.
         commutes = do_commute(operator, kernel, term_resolved=True)
-        indices = np.where(commutes is False)[0]
+        indices = np.where(np.logical_not(commutes))[0]
 
         if len(indices) > 0:
             operator.remove_terms(indices)
